@@ -38,7 +38,7 @@ def add_stage(m, sd):
             else:
                 key = sd.get("tmpl", 0)
                 if key not in templates:
-                    tm = rockit.Stage()
+                    tm = rockit.Stage(t0=sd["tmpl_d"]["T0"], T=sd["tmpl_d"]["TT"])
                     # the template carries the default horizon of its own declaration; clones override t0/T
                     rt = P.declare(sd["tmpl_d"], ocp=ocp, stage=tm, solver=False)
                     templates[key] = rt
@@ -55,6 +55,8 @@ def add_stage(m, sd):
                 # a parameter value given to this clone only, after cloning
                 if d["pg"] == "scalar" and "pg" in d.get("pvals", {}):
                     st.set_value(r.sym["pg"], d["pvals"]["pg"])
+                if sd.get("der_scale"):
+                    st.set_der(r.sym["x"], P.rhs(P.CA, r.sym, d)["x"], scale=sd["der_scale"])
                 if sd.get("clear_cons"):
                     st.clear_constraints()
                 for c in sd.get("extra_cons", []):
@@ -191,6 +193,14 @@ def compare_multi(spec):
                 fo += 0.7 * float(tr.X[0, tr.N])
         f_ref.append(fo)
         if ref_rows is None:
+            # each stage reports its own declared horizon and control grid
+            for i, tr in enumerate(trs):
+                tcq = np.asarray(q["s%d.tc" % i], dtype=float).reshape(-1)
+                if not NL.close(tcq, tr.tc, 1e-9):
+                    res.add("s%d:time:control" % i, "value", "sampled control grid %s vs declared %s" % (np.round(tcq, 6), np.round(tr.tc, 6)))
+                Tq = float(np.asarray(q["s%d.T" % i]).reshape(-1)[0]); t0q = float(np.asarray(q["s%d.t0" % i]).reshape(-1)[0])
+                if not NL.close(Tq, tr.T, 1e-9) or not NL.close(t0q, tr.t0, 1e-9):
+                    res.add("s%d:time:horizon" % i, "value", "value(T,t0)=%g,%g vs declared %g,%g" % (Tq, t0q, tr.T, tr.t0))
             ref_rows = [dict(origin=o, kind=k, fp=[v]) for o, k, v in rr]
         else:
             for a, (o, k, v) in zip(ref_rows, rr):
@@ -200,7 +210,12 @@ def compare_multi(spec):
     f_ref = np.array(f_ref)
     if not (np.all(np.isfinite(f_ref)) and all(np.all(np.isfinite(a["fp"])) for a in ref_rows)):
         raise FloatingPointError("reference non-finite")
-    missing, extra = NL.match_rows(rows_real, ref_rows)
+    scaled = any(sdd["d"].get("scales") for sdd in spec["stages"])
+    missing, extra = NL.match_rows(rows_real, ref_rows, prop_origins=(("dyn",) if scaled else ()))
+    for i, sdd in enumerate(spec["stages"]):
+        if scaled and sdd["d"]["method"] == "DC":
+            for o, msg in NL.der_scale_mismatches(rows_real, ref_rows, core.der_scales_of(sdd["d"]), prefix="s%d:" % i)[:2]:
+                res.add("s%d:scale:der" % i, "value", "%s: %s" % (o, msg))
     tcoords = core.time_coords(nlp, pts[0], names=[n for n in nlp.rb_names if n.endswith(".tc") or n.endswith(".T") or n.endswith(".t0")])
     for m_ in missing:
         res.add(m_["origin"], "missing", "")
